@@ -161,7 +161,7 @@ def wf (y : Style) (st : State) : Bool :=
   okText st.name && okText st.map && st.mapTitle.all okText && st.adminContact.all okText &&
   st.adminName.all okText && okText st.gameMode && okText st.gameVersion && st.playersMaximum < 2 ^ 32 &&
   st.playersMinimum.all (· < 2 ^ 8) && st.players.all wfPlayer && st.extras.all wfExtra &&
-  distinctKeys st.extras && y.queryId < 2 ^ 64 && y.pwStyle < 3 &&
+  distinctKeys st.extras && y.queryId < 2 ^ 64 && y.pwStyle < 3 && st.players.length < 2 ^ 16 && y.cuts.length < 2 ^ 16 &&
   (script y st).all (fun d => d.length ≤ 2048)
 
 end Gd.Gs1.Spec
